@@ -881,8 +881,8 @@ def parse_host(host):
             return family, host
     try:
         inet_pton(socket.AF_INET, host)
-    except (OSError, UnicodeEncodeError):
-        family = None  # not an IP
+    except (OSError, UnicodeEncodeError, ValueError):
+        family = None  # not an IP (ValueError: embedded null character)
     else:
         family = socket.AF_INET
     return family, host
